@@ -204,6 +204,9 @@ func runSeededChild(prop, repo, verifDir, id string) int {
 	}
 	c := &Ctx{P: p, R: newReport(prop, "selftest"), Tier: "selftest"}
 	check(c)
+	if extra := extraRules[prop]; extra != nil {
+		extra(c)
+	}
 	counts := map[string]int{}
 	for _, ob := range c.R.obs {
 		counts[ob.Rule]++
